@@ -424,3 +424,53 @@ where
 {
     FlatEx::<T>::parse(text)
 }
+
+/// Verification hooks (only with `--cfg exmex_verif`): read-only access to internals.
+#[cfg(exmex_verif)]
+pub mod verif {
+    pub use crate::expression::number_tracker::NumberTracker;
+    pub use crate::expression::{eval_binary, flat::VerifFlatStructure, deep::VerifDeepStructure};
+    pub use crate::operators::OperateBinary;
+    use crate::data_type::DataType;
+    use crate::parser::{self, Paren, ParsedToken};
+    use crate::{ExResult, Operator};
+    use std::fmt::Debug;
+
+    /// A parsed token without the operator payload.
+    #[derive(Clone, Debug, PartialEq)]
+    pub enum VerifToken<T> {
+        Num(T),
+        Open,
+        Close,
+        Op(usize),
+        Var(String),
+    }
+
+    /// `tokenize_and_analyze`, optionally followed by `check_parsed_token_preconditions`.
+    pub fn tokenize<'a, T, F>(
+        text: &'a str,
+        ops: &[Operator<'a, T>],
+        is_literal: F,
+        check_preconditions: bool,
+    ) -> ExResult<Vec<VerifToken<T>>>
+    where
+        T: DataType,
+        <T as std::str::FromStr>::Err: Debug,
+        F: Fn(&'a str) -> Option<&'a str>,
+    {
+        let tokens = parser::tokenize_and_analyze(text, ops, is_literal)?;
+        if check_preconditions {
+            parser::check_parsed_token_preconditions(&tokens)?;
+        }
+        Ok(tokens
+            .iter()
+            .map(|t| match t {
+                ParsedToken::Num(n) => VerifToken::Num(n.clone()),
+                ParsedToken::Paren(Paren::Open) => VerifToken::Open,
+                ParsedToken::Paren(Paren::Close) => VerifToken::Close,
+                ParsedToken::Op((i, _)) => VerifToken::Op(*i),
+                ParsedToken::Var(v) => VerifToken::Var(v.to_string()),
+            })
+            .collect())
+    }
+}
